@@ -200,3 +200,46 @@ func ZZ_C01_canaryRoleEligibility() {
 	nondet.Observe("createdOnNode0", created[zzNodeName(0)])
 	nondet.Reach("C01.canary.eligible-canary-node-served", event == "nothing" && created[zzNodeName(0)] == 1)
 }
+
+// ZZ_C01_boundPodStaysOnItsNode: a pod bound by spec.nodeName belongs to that node, whatever its
+// (template-copied) required node affinity says about node names — e.g. a template that excludes
+// one node by name (metadata.name NotIn [node2]) or names the only one it wants.  A sync with one such healthy
+// pod per eligible node creates and deletes nothing.
+func ZZ_C01_boundPodStaysOnItsNode() {
+	c, ds, rsNew, _ := zzStore(3)
+	ds.Status.ActiveReplicaSet = rsNew.Name
+	shape := nondet.String("templateAffinity", "none", "name-notin-node2", "name-in-node0", "name-notin-ghost")
+	var terms []corev1.NodeSelectorTerm
+	eligible := []bool{true, true, true}
+	switch shape {
+	case "name-notin-node2":
+		terms = []corev1.NodeSelectorTerm{{MatchFields: []corev1.NodeSelectorRequirement{{Key: "metadata.name", Operator: corev1.NodeSelectorOpNotIn, Values: []string{zzNodeName(2)}}}}}
+		eligible[2] = false
+	case "name-in-node0":
+		// (the API accepts exactly one value for a metadata.name In requirement)
+		terms = []corev1.NodeSelectorTerm{{MatchFields: []corev1.NodeSelectorRequirement{{Key: "metadata.name", Operator: corev1.NodeSelectorOpIn, Values: []string{zzNodeName(0)}}}}}
+		eligible[1], eligible[2] = false, false
+	case "name-notin-ghost":
+		terms = []corev1.NodeSelectorTerm{{MatchFields: []corev1.NodeSelectorRequirement{{Key: "metadata.name", Operator: corev1.NodeSelectorOpNotIn, Values: []string{"ghost"}}}}}
+	}
+	if terms != nil {
+		rsNew.Spec.Template.Spec.Affinity = &corev1.Affinity{NodeAffinity: &corev1.NodeAffinity{RequiredDuringSchedulingIgnoredDuringExecution: &corev1.NodeSelector{NodeSelectorTerms: terms}}}
+	}
+	for i := 0; i < 3; i++ {
+		if !eligible[i] {
+			continue
+		}
+		p := zzPod("pod-"+zzNodeName(i), zzNodeName(i), rsNew.Name, zzHashNew, 0, corev1.PodRunning, true, nondet.Base().Add(-600*1e9))
+		if terms != nil {
+			// created in node-name mode: the template's affinity is copied verbatim
+			p.Spec.Affinity = rsNew.Spec.Template.Spec.Affinity.DeepCopy()
+		}
+		c.Pods = append(c.Pods, p)
+	}
+	_, err := zzReconcile(zzReconciler(c, false), zzNS, rsNew.Name)
+	nondet.Assert("C01.bound.noerror", err == nil)
+	nondet.Assert("C01.bound.nothing-created-or-deleted", c.Count("create", "Pod") == 0 && c.Count("delete", "Pod") == 0)
+	nondet.Observe("creates", c.Count("create", "Pod"))
+	nondet.Observe("deletes", c.Count("delete", "Pod"))
+	nondet.Reach("C01.bound.name-excluding-template", shape == "name-notin-node2")
+}
